@@ -102,7 +102,7 @@ def run(ctx, f, rep):
             continue
         n6 += 1
         narm = 0
-        for p in pathq.paths(f, co, max_visits=2):
+        for p in pathq.paths(f, co, max_visits=2, inline_async=True):
             nexts = [ev for i, ev in pathq.calls(p, "next") if "StreamExt" in ev.name or "stream" in ev.name]
             if not nexts:
                 continue
@@ -185,7 +185,7 @@ def run(ctx, f, rep):
         rep.bad("R16.3", "R16.3|REQ-recv|anchor", "ReqSocket::recv not found (anchor-missing)")
     else:
         seen = {"none": 0, "err": 0}
-        for p in pathq.paths(f, co):
+        for p in pathq.paths(f, co, inline_async=True):
             if p.end != "return":
                 continue
             polls_ = [ev for ev in p.events if pathq.is_poll(ev) and "Next" in ev.name]
@@ -238,7 +238,7 @@ def run(ctx, f, rep):
             rep.bad("R16.3", "R16.3|%s|anchor" % label, "%s not found" % label)
             continue
         ok = False
-        for p in pathq.paths(f, co, max_visits=2):
+        for p in pathq.paths(f, co, max_visits=2, inline_async=True):
             for i, ev in pathq.calls(p, "peer_disconnected"):
                 k = ev.args[1] if len(ev.args) > 1 else None
                 if k is not None and pathq.mentions_call(k, lambda y: short(y[1]) == "next" and "IntoIter" in y[1]) is not None:
